@@ -603,7 +603,7 @@ package fit
 //@   concl knownMsgNums[MesgNumFileId] && knownMsgNums[MesgNumFileCreator] && knownMsgNums[MesgNumTimestampCorrelation]
 
 //@ func Encode(w io.Writer, file *File, arch binary.ByteOrder) (err error)
-//@   props C05 C07
+//@   props C05 C07 C04
 //@   use file_msgs_known()
 //@   requires [arch] isLE(arch) || isBE(arch)
 //@   slow header 240
@@ -641,6 +641,10 @@ package fit
 //@   ensures [header-crc] err == nil && file.Header.Size == 14 ==> file.Header.CRC == hdr12Sum(file.Header) && outb(w, old(wpos(w))+12) == byte(file.Header.CRC) && outb(w, old(wpos(w))+13) == byte(file.Header.CRC>>8)
 //@   ensures [file-crc] err == nil ==> outb(w, wpos(w)-2) == byte(file.CRC) && outb(w, wpos(w)-1) == byte(file.CRC>>8)
 //@   ensures [prefix] forall k in 0..old(wpos(w)) :: outb(w, k) == old(outb(w, k))
+//@@ C04: the trailing CRC is the checksum of the marshalled header followed by the data bytes (res_Bytes_1 names the
+//@@ result of the first buf.Bytes() call); stated where the output is being written, i.e. once w has received bytes
+//@   locals hdr []byte, res_Bytes_1 []byte
+//@   callsite Write [crc-covers-header-and-data] {C04} wpos(w) != old(wpos(w)) ==> file.CRC == dyncrc16.Crcfold(dyncrc16.Crcfold(0, hdr, 0, len(hdr)), res_Bytes_1, 0, len(res_Bytes_1))
 //@   assigns file.Header.DataSize, file.Header.CRC, file.CRC, wpos(w), outb(w, *)
 
 //@ func (h Header) CheckIntegrity() (err error)
